@@ -675,7 +675,7 @@ fn quiescent_probe(
         if accepted_now < exp_min || accepted_now > exp_max {
             probe_ok = false;
             violation(
-                prop,
+                if accepted_now > exp_max { payload::intern(format!("{},C03", prop)) } else { prop },
                 "quiescent-fill",
                 format!(
                     "quiescent-fill:{}",
@@ -1141,6 +1141,8 @@ pub fn run_once(cfg: &ConcCfg, shard: &mut Shard, keep_sample: bool) -> RunOutco
     shard.stat("accepted_sends", total);
     shard.stat("events", h.len() as u64);
     shard.stat("stalls_fired", stalls);
+    shard.stat("rendezvous_met", hooks::RENDEZVOUS_MET.swap(0, SeqCst));
+    hooks::watch_off();
     shard.stat("runs_wrapped", wrapped as u64);
     shard.stat("runs_with_full", had_full as u64);
     shard.stat("runs_send_recv_overlap", send_recv_overlap as u64);
@@ -1260,7 +1262,96 @@ fn stall_sites(f: Family) -> Vec<(u32, u32)> {
     v
 }
 
+/// (site where a thread pauses, roles, site another thread must pass) - windows that only open
+/// when two specific steps of two threads interleave
+fn rendezvous_pairs(f: Family) -> Vec<(u32, u32, u32)> {
+    let p = 1 << ROLE_PRODUCER;
+    let c = (1 << ROLE_CONSUMER) | (1 << ROLE_AUX);
+    let a = 1 << ROLE_AUX;
+    let mut v = vec![
+        (hooks::PAYLOAD_MID, c, site::SM_CLAIMED),
+        (hooks::PAYLOAD_MID, c, site::SS_CLAIMED),
+        (hooks::PAYLOAD_MID, c, site::R_UNPINNED),
+        (site::R_PINNED, c, site::R_UNPINNED),
+        (site::R_BEFORE_READ, c, site::R_UNPINNED),
+        (site::R_READ, c, site::SM_TAILOK),
+        (site::R_READ, c, site::SS_TAILOK),
+        (site::R_TAG, c, site::R_UNPINNED),
+        (site::R_POS, c, site::SM_PUBLISHED),
+        (site::SM_CLAIMED, p, site::SM_PUBLISHED),
+        (site::SM_WRITTEN, p, site::SM_PUBLISHED),
+        (site::SM_PINOK, p, site::R_PINNED),
+        (site::SS_PINOK, p, site::R_PINNED),
+        (site::SM_TAILOK, p, site::R_PINNED),
+        (site::SS_TAILOK, p, site::R_PINNED),
+        (site::V_BEFORE_OP, c, site::SS_TAILOK),
+        (site::V_AFTER_OP, c, site::SM_TAILOK),
+        (site::GMD_BETWEEN_READERS, p, site::R_UNPINNED),
+    ];
+    match f {
+        Family::AddStreamSole | Family::AddStreamShared => {
+            for _ in 0..3 {
+                v.push((site::GMD_LOADED_PTR, p, site::AS_PUBLISHED));
+                v.push((site::GMD_BETWEEN_READERS, p, site::AS_PUBLISHED));
+                v.push((site::GMD_BEFORE_RECHECK, p, site::AS_PUBLISHED));
+            }
+            v.push((site::AS_SNAPSHOT, a, site::SM_PUBLISHED));
+            v.push((site::AS_SNAPSHOT, a, site::SS_PUBLISHED));
+            v.push((site::AS_BEFORE_CAS, a, site::RT_M_SCANNED));
+            v.push((site::SS_TAILOK, p, site::AS_PUBLISHED));
+            v.push((site::SM_TAILOK, p, site::AS_PUBLISHED));
+        }
+        Family::RemoveStream | Family::NoReceiver => {
+            for _ in 0..2 {
+                v.push((site::GMD_LOADED_PTR, p, site::RR_PUBLISHED));
+                v.push((site::GMD_BETWEEN_READERS, p, site::RR_PUBLISHED));
+                v.push((site::GMD_BETWEEN_READERS, p, site::RR_RETIRED));
+                v.push((site::SS_PINOK, p, site::RX_UNSUB_REMOVED));
+                v.push((site::SM_PINOK, p, site::RX_UNSUB_REMOVED));
+                v.push((site::SS_HEAD, p, site::RX_UNSUB_DONE));
+                v.push((site::SM_HEAD, p, site::RX_UNSUB_DEC));
+                v.push((site::SS_TAILOK, p, site::RX_UNSUB_DEC));
+            }
+        }
+        Family::HandleChurn => {
+            for _ in 0..2 {
+                v.push((site::R_POS, c, site::RX_CLONE_DUP));
+                v.push((site::R_TAG, c, site::RX_CLONE_DUP));
+                v.push((site::R_BEFORE_READ, c, site::RX_CLONE_DUP));
+                v.push((site::R_UNPINNED, c, site::RX_CLONE_DUP));
+                v.push((site::V_BEFORE_OP, c, site::RX_CLONE_DUP));
+                v.push((site::R_POS, c, site::LA_MODE_SINGLE));
+                v.push((site::SS_HEAD, p, site::TX_CLONE_BUILT));
+                v.push((site::SS_TAILOK, p, site::TX_CLONE_BUILT));
+                v.push((site::SS_PINOK, p, site::TX_CLONE_MARKED));
+                v.push((site::SS_CLAIMED, p, site::TX_CLONE_BUILT));
+                v.push((site::TS_ENTRY, p, site::TX_CLONE_BUILT));
+                v.push((site::TS_MODE_UNI, p, site::TX_CLONE_MARKED));
+                v.push((site::SM_HEAD, p, site::TX_DROP_DEC));
+                v.push((site::SM_CLAIMED, p, site::TS_MODE_UNI));
+            }
+        }
+        Family::LastSender => {
+            for _ in 0..3 {
+                v.push((site::R_TAG, c, site::TX_DROP_DEC));
+                v.push((site::V_TAG, c, site::TX_DROP_DEC));
+                v.push((site::R_TAG, c, site::SS_PUBLISHED));
+                v.push((site::R_TAG, c, site::SM_PUBLISHED));
+                v.push((site::R_W0, c, site::SM_PUBLISHED));
+                v.push((site::R_POS, c, site::TX_DROP_DEC));
+                v.push((site::B_EMPTY, c, site::TX_DROP_BEFORE_NOTIFY));
+                v.push((site::BW_BEFORE_LOCK, c, site::TX_DROP_BEFORE_NOTIFY));
+                v.push((site::SM_CLAIMED, p, site::TX_DROP_DEC));
+            }
+        }
+        _ => {}
+    }
+    v
+}
+
 pub struct GenOpts {
+    /// explicit stall plan (debugging / replay): "SITE:rolemask:nth:events[:UNTIL_SITE]" separated by ','
+    pub plan: Option<Vec<Stall>>,
     pub fl: Option<Flavour>,
     pub fut: Option<bool>,
     pub small: bool,
@@ -1372,6 +1463,54 @@ pub fn gen_cfg(rng: &mut Rng, family: Family, o: &GenOpts) -> ConcCfg {
     });
     let mut plan = Vec::new();
     if policy == Policy::Stall {
+        if rng.chance(2, 3) {
+            let pairs = rendezvous_pairs(family);
+            for _ in 0..(1 + rng.below(2)) {
+                let (s, roles, until) = *rng.pick(&pairs);
+                plan.push(Stall {
+                    site: s,
+                    roles,
+                    nth: 1 + rng.below(30) as u32,
+                    events: 1 + rng.below(40) as u32,
+                    until: Some(until),
+                    gate: None,
+                    cap_us: 200,
+                    max_pauses: 12,
+                });
+            }
+        }
+        // two cooperating stalls: the one-shot operation waits just before its decisive step until a
+        // writer is inside its stream-list scan; that writer then pauses until the step is done
+        let duo: Option<(u32, u32, u32)> = match family {
+            Family::AddStreamSole | Family::AddStreamShared => Some((site::AS_BEFORE_CAS, 1 << ROLE_AUX, site::AS_PUBLISHED)),
+            Family::RemoveStream => Some((site::RR_BEFORE_CAS, (1 << ROLE_AUX) | (1 << ROLE_CONSUMER), site::RR_RETIRED)),
+            _ => None,
+        };
+        if let Some((wait_site, wait_roles, done_site)) = duo {
+            if rng.chance(2, 3) {
+                let scan_site = *rng.pick(&[site::GMD_BETWEEN_READERS, site::GMD_BETWEEN_READERS, site::GMD_LOADED_PTR, site::GMD_BEFORE_RECHECK]);
+                plan.push(Stall {
+                    site: wait_site,
+                    roles: wait_roles,
+                    nth: 1,
+                    events: rng.below(6) as u32,
+                    until: Some(scan_site),
+                    gate: None,
+                    cap_us: 2000,
+                    max_pauses: 4,
+                });
+                plan.push(Stall {
+                    site: scan_site,
+                    roles: 1 << ROLE_PRODUCER,
+                    nth: 1,
+                    events: 2 + rng.below(40) as u32,
+                    until: Some(done_site),
+                    gate: Some(wait_site),
+                    cap_us: 2000,
+                    max_pauses: 1000,
+                });
+            }
+        }
         let sites = stall_sites(family);
         let ns = 1 + rng.below(3);
         for _ in 0..ns {
@@ -1381,9 +1520,17 @@ pub fn gen_cfg(rng: &mut Rng, family: Family, o: &GenOpts) -> ConcCfg {
                 roles,
                 nth: 1 + rng.below((msgs as u64).min(40)) as u32,
                 events: 10 + rng.below(490) as u32,
+                until: None,
+                gate: None,
+                cap_us: 200,
+                max_pauses: 0,
             });
         }
     }
+    let (policy, plan) = match &o.plan {
+        Some(p) => (Policy::Stall, p.clone()),
+        None => (policy, plan),
+    };
     ConcCfg {
         fl,
         fut,
@@ -1485,4 +1632,27 @@ pub fn run_many(p: &ConcParams, shard: &mut Shard) {
         }
         i += 1;
     }
+}
+
+pub fn parse_plan(text: &str) -> Vec<Stall> {
+    let mut v = Vec::new();
+    for item in text.split(',') {
+        let f: Vec<&str> = item.split(':').collect();
+        if f.len() < 4 {
+            continue;
+        }
+        if let Some(site) = hooks::site_by_name(f[0]) {
+            v.push(Stall {
+                site,
+                roles: f[1].parse().unwrap_or(7),
+                nth: f[2].parse().unwrap_or(1),
+                events: f[3].parse().unwrap_or(10),
+                until: f.get(4).and_then(|n| hooks::site_by_name(n)),
+                gate: f.get(5).and_then(|n| hooks::site_by_name(n)),
+                cap_us: 2000,
+                max_pauses: 1000,
+            });
+        }
+    }
+    v
 }
